@@ -23,10 +23,19 @@ def load_known():
         if not line.startswith("known:"):
             continue
         body, _, what = line[len("known:"):].partition(" :: ")
+        body = body.strip()
+        inp = None
+        mi = re.search(r"\s+input=(\{.*\})\s*$", body)      # optional: the specific failing input (a JSON object; every key must match)
+        if mi:
+            try:
+                inp = json.loads(mi.group(1))
+            except Exception:
+                continue
+            body = body[:mi.start()]
         m = re.match(r"\s*property=(\S+)\s+obligation=(\S+)(?:\s+clause=(.*))?$", body.strip())
         if not m:
             continue
-        out.append({"property": m.group(1), "obligation": m.group(2), "clause": R.normtxt(m.group(3) or ""), "what": what.strip()})
+        out.append({"property": m.group(1), "obligation": m.group(2), "clause": R.normtxt(m.group(3) or ""), "input": inp, "what": what.strip()})
     return out
 
 
@@ -36,6 +45,11 @@ def match_known(known, prop, fail):
             continue
         if k["clause"] and k["clause"] != R.normtxt(fail.get("clause", "")):
             continue
+        if k.get("input") is not None:
+            # a finding recorded for a specific input covers exactly the failures whose every reported input carries these values
+            items = (fail.get("input") or {}).get("failing_inputs") or []
+            if not items or not all(all(str(it.get(kk)) == str(vv) for kk, vv in k["input"].items()) for it in items):
+                continue
         return k
     return None
 
